@@ -241,6 +241,16 @@ class FMGetFeatures:
 
 @contract(FM, 'FeatureModel.get_feature_by_name', prop='C03')
 class FMGetFeatureByName:
+    @staticmethod
+    def gen_feature_name(model):
+        # names of the model, an absent one, and the names this model object had before in-place edits (stale names)
+        from standin import models as M
+        names = [f.name for f in M.all_features(model)]
+        seen = getattr(model, '_verif_seen_names', [])
+        out = list(dict.fromkeys([n for n in seen if n not in names] + names + ['__absent__']))
+        model._verif_seen_names = list(dict.fromkeys(seen + names))
+        return out
+
     def pre(self, feature_name):
         return wf()
 
